@@ -52,6 +52,12 @@ def run(ck: Checker):
     check_sentinels(ck, 'C11-6')
     ck.rule('C11-7', 'fail before the handshake or inside the guarded region: after Worker.run has reported a successful initialisation, everything the worker executes lies inside the try of Worker.start whose handler broadcasts the end sentinel and re-raises — a set-up step that can fail outside it lets __enter__ return with a dead worker (EXITS)', minimum=2)
     check_guarded_after_handshake(ck, 'C11-7')
+    # "stops completely": __exit__ cancels what is pending and must be able to finish while stream feeders still sit in
+    # the admission wait -- every message the gather loop consumes gives its slot back and issues its wake-up, whatever
+    # the state of the future (the C06-4 obligations)
+    ck.rule('C11-8', 'leaving the with-block cannot strand a feeder in the admission wait: the gather loop removes the ledger entry and signals the admission condition exactly once per message whatever the state of the future (cancelled requests of an abandoned stream included) (the C06-4 obligations)', minimum=8)
+    for name in server.SERVERS:
+        server.check_slot_return(ck, 'C11-8', server.discover(ck.repo, name))
 
 
 # ----------------------------------------------------------------------
@@ -144,6 +150,27 @@ def check_rollback(ck: Checker, rid: str, mod):
                     state_probs.append(f'the rollback helper `{g.name}` reads `self.{attr}`, which start() assigns only after the launches: when a launch fails the helper finds the attribute missing (AttributeError instead of the real error, earlier workers keep running) or still holding the queue of the previous cycle')
         if state_probs:
             ck.ob(rid, f, (f.node.lineno, f'{cname}.start rollback state'), False, '; '.join(sorted(set(state_probs))))
+        # helper threads of the servlet itself (the dispatcher of a switch / ensemble): a launch that can still fail after
+        # such a thread was started must end it on the failure path -- the simple way is to start it after all launches
+        tattrs = {dotted(n.ast.targets[0]) for n in cfg.nodes if n.kind == 'stmt' and isinstance(n.ast, ast.Assign) and len(n.ast.targets) == 1 and isinstance(n.ast.value, ast.Call) and (dotted(n.ast.value.func) or '').split('.')[-1] == 'Thread' and (dotted(n.ast.targets[0]) or '').startswith('self.')}
+        for tn in cfg.nodes if cname in COMPOUND else []:
+            a = header_expr(tn)
+            if a is None:
+                continue
+            for c in calls_in(a):
+                r, me = method_of(c)
+                if me == 'start' and r is not None and dotted(r) in tattrs:
+                    later = reachable(cfg, [e.dst for e in cfg.normal_succ(tn.id)], edge_ok=lambda e: not e.is_exc)
+                    joins = {k.id for k in cfg.nodes if header_expr(k) is not None and any(method_of(cc)[1] == 'join' and method_of(cc)[0] is not None and dotted(method_of(cc)[0]) == dotted(r) for cc in calls_in(header_expr(k)))}
+                    for rn in raisers:
+                        if rn.id in later:
+                            p = path_avoiding(cfg, [e for e in cfg.succ[rn.id] if e.kind == 'exc'], {cfg.exit_raise}, avoid=joins)
+                            if p is not None:
+                                state_probs_t = f'the helper thread `{dotted(r)}` is started (L{tn.lineno}) before `{norm_text(rn.ast)[:40]}` (L{rn.lineno}), which can still fail: the failure path stops the members but leaves the thread running (blocked on its input queue for ever; it is not a daemon, so the interpreter cannot exit)'
+                                ck.ob(rid, f, tn.ast, False, state_probs_t, path=fmt_path(cfg, [rn.id] + p))
+                                break
+                    else:
+                        ck.ob(rid, f, tn.ast, True, f'the helper thread `{dotted(r)}` is started after every fallible launch (or joined on their failure paths)')
         if probs:
             rn, p = probs[0]
             ck.ob(rid, f, rn.ast, False, f'when `{norm_text(rn.ast)[:50]}` fails after earlier workers/members were started, start() raises without stopping them: their threads/processes keep running' if p is not None else 'the launch failure is swallowed', path=fmt_path(cfg, [rn.id] + p) if p else '')
